@@ -122,15 +122,287 @@ Proof.
   unfold ARC_HDR. rewrite len_skipn. unfold len in *. lia.
 Qed.
 
-Lemma read_params_cost : forall le fuel s, 0 <= snd (read_params le fuel s) <= 12 * len s + 4.
+Lemma read_params_cost_aux : forall le fuel s c, c = snd (read_params le fuel s) -> 0 <= c <= 12 * len s + 4.
 Proof.
-  intros le fuel; induction fuel as [|k IH]; intros s; cbn [read_params].
-  - cbn [pret snd]. pose proof (len_nonneg _ s). lia.
-  - unfold pbind at 1. destruct (read_param_cost le s) as [C0 C1].
-    destruct (read_param le s) as [[[p s1]|e|x] c]; cbn [fst snd] in *; pose proof (len_nonneg _ s); try lia.
-    destruct C1 as [C1 C2].
-    destruct (p_id p =? PID_SENTINEL); [cbn [pret snd]; lia|].
-    unfold pbind, ptick. specialize (IH s1).
-    destruct (read_params le k s1) as [[[ps s2]|e|x] c']; cbn [snd pret] in *; unfold PARAM_SIZE;
-      pose proof (len_nonneg _ s1); lia.
+  intros le fuel; induction fuel as [|k IH]; intros s c Hc; cbn [read_params] in Hc.
+  - cbn [pret snd] in Hc. pose proof (len_nonneg _ s). lia.
+  - unfold pbind at 1 in Hc. destruct (read_param_cost le s) as [C0 C1].
+    destruct (read_param le s) as [[[p s1]|e|x] c0]; cbn [fst snd] in *; pose proof (len_nonneg _ s); try lia.
+    destruct C1 as [C1 C2]. pose proof (len_nonneg _ s1) as Hs1.
+    destruct (p_id p =? PID_SENTINEL); [cbn [pret snd] in Hc; lia|].
+    unfold pbind, ptick in Hc. specialize (IH s1 _ eq_refl).
+    destruct (read_params le k s1) as [[[ps s2]|e|x] c']; cbn [snd pret] in *; unfold PARAM_SIZE in *; lia.
+Qed.
+Lemma read_params_cost : forall le fuel s, 0 <= snd (read_params le fuel s) <= 12 * len s + 4.
+Proof. intros; eapply read_params_cost_aux; reflexivity. Qed.
+
+(* -------------------------------------------------------- fixed-cost submessages *)
+Lemma costs_bind' : forall A B (p : parser A) (f : A -> parser B) k1 k2,
+  costs p k1 -> (forall a, costs (f a) k2) -> 0 <= k2 -> costs (pbind p f) (k1 + k2).
+Proof. intros; apply costs_bind; auto. Qed.
+
+Ltac costs_auto :=
+  first [ apply costs_pret | apply costs_perr | apply costs_u16 | apply costs_u32 | apply costs_i32
+        | apply costs_sn | apply costs_eid | apply costs_snset | apply costs_fnset | apply costs_read_n
+        | (eapply costs_bind'; [costs_auto | intros ?; costs_auto | lia]) ].
+
+Lemma run_snd : forall A (p : parser A) v, snd (run p v) = snd (p v).
+Proof. intros; unfold run; destruct (p v) as [[[a s]|e|x] c]; reflexivity. Qed.
+
+Ltac fixed_cost :=
+  rewrite run_snd;
+  match goal with
+  | |- 0 <= snd (?p ?v) <= _ =>
+      let C := fresh "C" in eassert (C : costs p _) by costs_auto; specialize (C v); lia
+  end.
+
+Lemma acknack_cost : forall fl v, 0 <= snd (parse_acknack fl v) <= 56.
+Proof. intros; unfold parse_acknack; fixed_cost. Qed.
+Lemma gap_cost : forall fl v, 0 <= snd (parse_gap fl v) <= 60.
+Proof. intros; unfold parse_gap; fixed_cost. Qed.
+Lemma heartbeat_cost : forall fl v, 0 <= snd (parse_heartbeat fl v) <= 28.
+Proof. intros; unfold parse_heartbeat; fixed_cost. Qed.
+Lemma heartbeat_frag_cost : forall fl v, 0 <= snd (parse_heartbeat_frag fl v) <= 24.
+Proof. intros; unfold parse_heartbeat_frag; fixed_cost. Qed.
+Lemma nack_frag_cost : forall fl v, 0 <= snd (parse_nack_frag fl v) <= 1341.
+Proof. intros; unfold parse_nack_frag; fixed_cost. Qed.
+Lemma info_dst_cost : forall fl v, 0 <= snd (parse_info_dst fl v) <= 12.
+Proof. intros; unfold parse_info_dst; fixed_cost. Qed.
+Lemma info_src_cost : forall fl v, 0 <= snd (parse_info_src fl v) <= 20.
+Proof. intros; unfold parse_info_src; fixed_cost. Qed.
+Lemma info_ts_cost : forall fl v, 0 <= snd (parse_info_ts fl v) <= 8.
+Proof. intros; unfold parse_info_ts; destruct (flag fl 1); [cbn [snd]; lia|fixed_cost]. Qed.
+
+(* ------------------------------------------------------------ DATA / DATA_FRAG *)
+Lemma read_param_list_cost : forall le s, 0 <= snd (read_param_list le s) <= 12 * len s + 4.
+Proof. intros le s. exact (read_params_cost le MAX_PARAMETERS s). Qed.
+
+Lemma data_tail_cost : forall (q dk : bool) le (region : list Z) c,
+  c = snd (match (if q then read_param_list le region else (Ok ([], region), 0)) with
+           | (Err e, c') => (@Err psub e, c')
+           | (Panic x, c') => (Panic x, c')
+           | (Ok (qos, rest), c') => (Ok (Pad : psub), c' + (if dk then ARC_HDR + len rest else 0))
+           end) ->
+  0 <= c <= 20 + 13 * len region.
+Proof.
+  intros q dk le region c Hc. pose proof (len_nonneg _ region) as Hr. destruct q.
+  - pose proof (read_param_list_cost le region) as C. pose proof (read_param_list_ok le region) as O.
+    destruct (read_param_list le region) as [[[qos rest]|e|x] c']; cbn [fst snd] in *; try lia.
+    specialize (O qos rest eq_refl). pose proof (len_nonneg _ rest).
+    assert (0 <= params_wire qos).
+    { unfold params_wire. clear. induction qos as [|p t IH]; cbn [map sumZ]; [lia|]. pose proof (len_nonneg _ (p_val p)). lia. }
+    unfold ARC_HDR in *. destruct dk; lia.
+  - cbn [snd] in Hc. unfold ARC_HDR in *. destruct dk; lia.
+Qed.
+
+Lemma data_head_o2q : forall le data o2q rid wid sn s1, bytes_ok data ->
+  fst ((_ <~ read_u16 le;; o <~ read_u16 le;; rid <~ read_entity_id;; wid <~ read_entity_id;;
+        sn <~ read_sn le;; pret (o + 4, rid, wid, sn)) data) = Ok (o2q, rid, wid, sn, s1) -> 4 <= o2q.
+Proof.
+  intros le data o2q rid wid sn s1 Hb F0.
+  apply pbind_inv_ok in F0 as (x & t1 & H1 & F0). apply consumes_read_u16 in H1 as [-> _].
+  apply pbind_inv_ok in F0 as (o & t2 & H2 & F0). apply read_u16_nonneg in H2; [|apply bytes_ok_skipn; exact Hb].
+  apply pbind_inv_ok in F0 as (a & t3 & _ & F0). apply pbind_inv_ok in F0 as (b & t4 & _ & F0).
+  apply pbind_inv_ok in F0 as (c & t5 & _ & F0). apply pret_ok in F0 as [F0 _]. inversion F0; subst. lia.
+Qed.
+
+Lemma data_cost : forall fl sublen data c, bytes_ok data -> 0 <= sublen ->
+  c = snd (parse_data fl sublen data) ->
+  0 <= c <= 40 + 13 * (if sublen =? 0 then len data else sublen).
+Proof.
+  intros fl sublen data c Hb Hs0 Hc. unfold parse_data in Hc.
+  set (dk := flag fl 2 || flag fl 3) in *. clearbody dk. rewrite shorter_spec in Hc.
+  set (endp := if sublen =? 0 then len data else sublen) in *.
+  assert (He : 0 <= endp) by (unfold endp; destruct (sublen =? 0); [apply len_nonneg|lia]).
+  destruct (Z.ltb_spec (len data) sublen) as [L|L]; [cbn [snd] in Hc; lia|].
+  pose proof (data_head_o2q (is_le fl) data) as Ho.
+  assert (C0 : 0 <= snd ((_ <~ read_u16 (is_le fl);; o <~ read_u16 (is_le fl);; rid <~ read_entity_id;; wid <~ read_entity_id;;
+                          sn <~ read_sn (is_le fl);; pret (o + 4, rid, wid, sn)) data) <= 20)
+    by (match goal with |- 0 <= snd (?p ?v) <= _ => eassert (C : costs p _) by costs_auto; specialize (C v); lia end).
+  destruct ((_ <~ read_u16 (is_le fl);; o <~ read_u16 (is_le fl);; rid <~ read_entity_id;; wid <~ read_entity_id;;
+             sn <~ read_sn (is_le fl);; pret (o + 4, rid, wid, sn)) data) as [[[[[[o2q rid] wid] sn] s1]|e|x] c0];
+    cbn [fst snd] in *; try lia.
+  specialize (Ho o2q rid wid sn s1 Hb eq_refl). cbv zeta in Hc.
+  destruct (Z.ltb_spec endp o2q) as [L2|L2]; [cbn [snd] in Hc; lia|].
+  pose proof (region_len data endp o2q Ho He) as Hr.
+  set (region := firstn (Z.to_nat (endp - o2q)) (skipn (Z.to_nat o2q) data)) in *. clearbody region.
+  pose proof (data_tail_cost (flag fl 1) dk (is_le fl) region) as T.
+  destruct (if flag fl 1 then read_param_list (is_le fl) region else (Ok ([], region), 0)) as [[[qos rest]|e|x] c'];
+    cbn [snd] in *; specialize (T _ eq_refl); lia.
+Qed.
+
+Lemma data_frag_head_o2q : forall le data o2q rid wid sn fs fc fz ds s1, bytes_ok data ->
+  fst ((_ <~ read_u16 le;; o <~ read_u16 le;; rid <~ read_entity_id;; wid <~ read_entity_id;;
+        sn <~ read_sn le;; fs <~ read_u32 le;; fc <~ read_u16 le;; fz <~ read_u16 le;; ds <~ read_u32 le;;
+        pret (o + 4, rid, wid, sn, fs, fc, fz, ds)) data) = Ok (o2q, rid, wid, sn, fs, fc, fz, ds, s1) -> 4 <= o2q.
+Proof.
+  intros le data o2q rid wid sn fs fc fz ds s1 Hb F0.
+  apply pbind_inv_ok in F0 as (x & t1 & H1 & F0). apply consumes_read_u16 in H1 as [-> _].
+  apply pbind_inv_ok in F0 as (o & t2 & H2 & F0). apply read_u16_nonneg in H2; [|apply bytes_ok_skipn; exact Hb].
+  apply pbind_inv_ok in F0 as (a & t3 & _ & F0). apply pbind_inv_ok in F0 as (b & t4 & _ & F0).
+  apply pbind_inv_ok in F0 as (c & t5 & _ & F0). apply pbind_inv_ok in F0 as (d & t6 & _ & F0).
+  apply pbind_inv_ok in F0 as (g & t7 & _ & F0). apply pbind_inv_ok in F0 as (i & t8 & _ & F0).
+  apply pbind_inv_ok in F0 as (j & t9 & _ & F0). apply pret_ok in F0 as [F0 _]. inversion F0; subst. lia.
+Qed.
+
+Lemma data_frag_cost : forall fl sublen data c, bytes_ok data -> 0 <= sublen ->
+  c = snd (parse_data_frag fl sublen data) ->
+  0 <= c <= 52 + 13 * (if sublen =? 0 then len data else sublen).
+Proof.
+  intros fl sublen data c Hb Hs0 Hc. unfold parse_data_frag in Hc. rewrite !shorter_spec in Hc.
+  set (endp := if sublen =? 0 then len data else sublen) in *.
+  assert (He : 0 <= endp) by (unfold endp; destruct (sublen =? 0); [apply len_nonneg|lia]).
+  destruct (Z.ltb_spec (len data) sublen) as [L|L]; [cbn [snd] in Hc; lia|].
+  destruct (Z.ltb_spec (len data) 32) as [L3|L3]; [cbn [snd] in Hc; lia|].
+  pose proof (data_frag_head_o2q (is_le fl) data) as Ho.
+  assert (C0 : 0 <= snd ((_ <~ read_u16 (is_le fl);; o <~ read_u16 (is_le fl);; rid <~ read_entity_id;; wid <~ read_entity_id;;
+                          sn <~ read_sn (is_le fl);; fs <~ read_u32 (is_le fl);; fc <~ read_u16 (is_le fl);;
+                          fz <~ read_u16 (is_le fl);; ds <~ read_u32 (is_le fl);;
+                          pret (o + 4, rid, wid, sn, fs, fc, fz, ds)) data) <= 32)
+    by (match goal with |- 0 <= snd (?p ?v) <= _ => eassert (C : costs p _) by costs_auto; specialize (C v); lia end).
+  destruct ((_ <~ read_u16 (is_le fl);; o <~ read_u16 (is_le fl);; rid <~ read_entity_id;; wid <~ read_entity_id;;
+             sn <~ read_sn (is_le fl);; fs <~ read_u32 (is_le fl);; fc <~ read_u16 (is_le fl);;
+             fz <~ read_u16 (is_le fl);; ds <~ read_u32 (is_le fl);;
+             pret (o + 4, rid, wid, sn, fs, fc, fz, ds)) data) as [[[[[[[[[[o2q rid] wid] sn] fs] fc] fz] ds] s1]|e|x] c0];
+    cbn [fst snd] in *; try lia.
+  specialize (Ho o2q rid wid sn fs fc fz ds s1 Hb eq_refl). cbv zeta in Hc.
+  destruct (Z.ltb_spec endp o2q) as [L2|L2]; [cbn [snd] in Hc; lia|].
+  pose proof (region_len data endp o2q Ho He) as Hr.
+  set (region := firstn (Z.to_nat (endp - o2q)) (skipn (Z.to_nat o2q) data)) in *. clearbody region.
+  pose proof (data_tail_cost (flag fl 1) true (is_le fl) region) as T.
+  destruct (if flag fl 1 then read_param_list (is_le fl) region else (Ok ([], region), 0)) as [[[qos rest]|e|x] c'];
+    cbn [snd] in *; specialize (T _ eq_refl); lia.
+Qed.
+
+(* ------------------------------------------------------------------ INFO_REPLY *)
+Lemma locator_list_cost' : forall le s,
+  0 <= snd (read_locator_list le s) <= (if len s <? 4 then 0 else 4 + 49 * Z.max 0 (dec_int le (firstn 4 s))).
+Proof.
+  intros le s. destruct (Z.ltb_spec (len s) 4) as [L|L]; [|apply locator_list_cost].
+  unfold read_locator_list, pbind, read_u32, pbind, read_n. rewrite shorter_spec.
+  destruct (Z.ltb_spec (len s) (Z.of_nat 4)); [cbn [snd]; lia|lia].
+Qed.
+
+Lemma info_reply_cost : forall fl sublen v c, bytes_ok v -> 0 <= sublen ->
+  c = snd (parse_info_reply fl v) ->
+  locs_overread (is_le fl) (flag fl 1) sublen v = false -> 0 <= c <= 8 + 6 * sublen.
+Proof.
+  intros fl sublen v c Hb Hs Hc Ho. unfold parse_info_reply in Hc. rewrite run_snd in Hc.
+  unfold pbind at 1 in Hc.
+  pose proof (locator_list_cost' (is_le fl) v) as C1.
+  pose proof (read_locator_list_ok (is_le fl) v) as O1.
+  unfold locs_overread in Ho. rewrite !shorter_spec in Ho.
+  destruct (Z.ltb_spec (len v) 4) as [L|L].
+  { destruct (read_locator_list (is_le fl) v) as [[[u s1]|e|x] c1]; cbn [fst snd] in *; try lia.
+    all: specialize (O1 u s1 Hb eq_refl); cbv zeta in O1; lia. }
+  destruct (Z.ltb_spec sublen (24 * dec_int (is_le fl) (firstn 4 v))) as [|L2]; [discriminate|].
+  assert (Hn1 : 0 <= dec_int (is_le fl) (firstn 4 v)) by (apply dec_int_nonneg, bytes_ok_firstn, Hb).
+  destruct (read_locator_list (is_le fl) v) as [[[u s1]|e|x] c1]; cbn [fst snd] in *; try lia.
+  specialize (O1 u s1 Hb eq_refl). cbv zeta in O1. destruct O1 as (_ & Es1 & _ & _).
+  unfold pbind at 1 in Hc.
+  destruct (flag fl 1); cbn [negb] in Ho.
+  - rewrite <- Es1 in Ho.
+    pose proof (locator_list_cost' (is_le fl) s1) as C2.
+    assert (Hn2 : 0 <= dec_int (is_le fl) (firstn 4 s1)).
+    { apply dec_int_nonneg, bytes_ok_firstn. subst s1. apply bytes_ok_skipn, Hb. }
+    destruct (Z.ltb_spec (len s1) 4) as [L3|L3].
+    + destruct (read_locator_list (is_le fl) s1) as [[[m s2]|e|x] c2]; cbn [fst snd pret] in *; lia.
+    + apply Z.ltb_ge in Ho.
+      destruct (read_locator_list (is_le fl) s1) as [[[m s2]|e|x] c2]; cbn [fst snd pret] in *; lia.
+  - cbn [pret snd] in Hc. lia.
+Qed.
+
+(* ------------------------------------------------------------------ one submessage *)
+Definition rescan_bad (x : Z * Z * Z * list Z) : bool :=
+  match x with (id, fl, sublen, body) =>
+    if ((id =? ID_DATA) || (id =? ID_DATA_FRAG)) && (sublen =? 0)
+    then negb (is_ok (fst (parse_sub id fl sublen body))) else false end.
+
+Definition consumed_of (r : res psub) (sublen : Z) (v : list Z) : Z :=
+  match r with
+  | Ok sm => if (sublen =? 0) && is_data sm then len v else sublen
+  | _ => sublen
+  end.
+
+Lemma parse_sub_cost : forall id fl sublen v c, bytes_ok v -> 0 <= sublen <= len v ->
+  c = snd (parse_sub id fl sublen v) ->
+  over_bad (id, fl, sublen, v) = false -> rescan_bad (id, fl, sublen, v) = false ->
+  0 <= c <= 1341 + 13 * consumed_of (fst (parse_sub id fl sublen v)) sublen v.
+Proof.
+  intros id fl sublen v c Hb Hs Hc Ho Hr. unfold over_bad in Ho. unfold rescan_bad in Hr.
+  assert (Hcons : sublen <= consumed_of (fst (parse_sub id fl sublen v)) sublen v).
+  { unfold consumed_of. destruct (fst (parse_sub id fl sublen v)); try lia.
+    destruct ((sublen =? 0) && is_data a); lia. }
+  unfold parse_sub in *.
+  destruct (id =? ID_ACKNACK); [pose proof (acknack_cost fl v); lia|].
+  destruct (id =? ID_DATA).
+  { cbn [orb andb] in Hr.
+    pose proof (data_cost fl sublen v c Hb ltac:(lia) Hc) as C. pose proof (data_mem fl sublen v) as M.
+    unfold consumed_of in *. destruct (fst (parse_data fl sublen v)) as [sm|e|x] eqn:E.
+    - destruct (M sm Hb ltac:(lia) eq_refl) as [M1 _]. rewrite M1, andb_true_r. lia.
+    - cbn [is_ok negb] in Hr. destruct (sublen =? 0); [discriminate|lia].
+    - cbn [is_ok negb] in Hr. destruct (sublen =? 0); [discriminate|lia]. }
+  destruct (id =? ID_DATA_FRAG).
+  { cbn [orb andb] in Hr.
+    pose proof (data_frag_cost fl sublen v c Hb ltac:(lia) Hc) as C. pose proof (data_frag_mem fl sublen v) as M.
+    unfold consumed_of in *. destruct (fst (parse_data_frag fl sublen v)) as [sm|e|x] eqn:E.
+    - destruct (M sm Hb ltac:(lia) eq_refl) as [M1 _]. rewrite M1, andb_true_r. lia.
+    - cbn [is_ok negb] in Hr. destruct (sublen =? 0); [discriminate|lia].
+    - cbn [is_ok negb] in Hr. destruct (sublen =? 0); [discriminate|lia]. }
+  destruct (id =? ID_GAP); [pose proof (gap_cost fl v); lia|].
+  destruct (id =? ID_HEARTBEAT); [pose proof (heartbeat_cost fl v); lia|].
+  destruct (id =? ID_HEARTBEAT_FRAG); [pose proof (heartbeat_frag_cost fl v); lia|].
+  destruct (id =? ID_INFO_DST); [pose proof (info_dst_cost fl v); lia|].
+  destruct (id =? ID_INFO_REPLY); [pose proof (info_reply_cost fl sublen v c Hb ltac:(lia) Hc Ho); lia|].
+  destruct (id =? ID_INFO_SRC); [pose proof (info_src_cost fl v); lia|].
+  destruct (id =? ID_INFO_TS); [pose proof (info_ts_cost fl v); lia|].
+  destruct (id =? ID_NACK_FRAG); [pose proof (nack_frag_cost fl v); lia|].
+  destruct (id =? ID_PAD); cbn [parse_pad snd] in Hc; lia.
+Qed.
+
+(* ----------------------------------------------------------------------- the loop *)
+Lemma sub_loop_cost : forall fuel v c, bytes_ok v -> c = snd (sub_loop fuel v) ->
+  existsb over_bad (visits fuel v) = false -> existsb rescan_bad (visits fuel v) = false ->
+  0 <= c <= 359 * len v.
+Proof.
+  induction fuel as [|k IH]; intros v c Hb Hc Hv Hw; pose proof (len_nonneg _ v) as Hl.
+  - cbn [sub_loop snd] in Hc. lia.
+  - destruct v as [|id [|fl [|b2 [|b3 v']]]]; try (cbn [sub_loop snd] in Hc; lia).
+    cbn [sub_loop visits] in *. cbv zeta in *.
+    set (sublen := sublen_of fl b2 b3) in *.
+    assert (Hb' : bytes_ok v') by (inversion Hb as [|? ? ? Hb1]; inversion Hb1 as [|? ? ? Hb2]; inversion Hb2 as [|? ? ? Hb3]; inversion Hb3; assumption).
+    assert (Hs0 : 0 <= sublen).
+    { inversion Hb as [|? ? ? Hb1]; inversion Hb1 as [|? ? A2 Hb2]; inversion Hb2 as [|? ? A3 Hb3]; inversion Hb3 as [|? ? A4 ?]; subst.
+      unfold sublen, sublen_of, is_byte in *. destruct (is_le fl); lia. }
+    rewrite !len_cons in *. pose proof (len_nonneg _ v') as Hl'.
+    rewrite shorter_spec in *.
+    destruct (Z.ltb_spec (len v') sublen) as [L|L]; [cbn [snd] in Hc; lia|].
+    cbn [existsb] in Hv, Hw. apply orb_false_iff in Hv as [Hv1 Hv2]. apply orb_false_iff in Hw as [Hw1 Hw2].
+    pose proof (parse_sub_cost id fl sublen v' _ Hb' ltac:(lia) eq_refl Hv1 Hw1) as PC. unfold consumed_of in PC.
+    destruct (parse_sub id fl sublen v') as [[sm|e|x] c0]; cbn [fst snd] in *.
+    + set (consumed := if (sublen =? 0) && is_data sm then len v' else sublen) in *.
+      assert (Hcn : 0 <= consumed <= len v') by (unfold consumed; destruct ((sublen =? 0) && is_data sm); lia).
+      specialize (IH (skipn (Z.to_nat consumed) v') _ ltac:(apply bytes_ok_skipn; exact Hb') eq_refl Hv2 Hw2).
+      rewrite len_skipn in IH.
+      destruct (sub_loop k (skipn (Z.to_nat consumed) v')) as [[l'|e|x] c']; cbn [snd] in *;
+        unfold SUB_SIZE in *; unfold len in *; lia.
+    + specialize (IH (skipn (Z.to_nat sublen) v') _ ltac:(apply bytes_ok_skipn; exact Hb') eq_refl Hv2 Hw2).
+      rewrite len_skipn in IH.
+      destruct (sub_loop k (skipn (Z.to_nat sublen) v')) as [r c']; cbn [snd] in *. unfold len in *; lia.
+    + lia.
+Qed.
+
+(* bytes copied + loop iterations + bytes allocated, for every byte string outside the
+   INFO_REPLY over-read and DATA rescan classes *)
+Theorem message_cost_linear : forall v, bytes_ok v ->
+  C07_known_overread v = false -> C07_known_rescan v = false ->
+  0 <= message_cost v <= COST_C * len v + COST_K.
+Proof.
+  intros v Hb Ho Hr. unfold message_cost, parse_message_cost. unfold C07_known_overread, C07_known_rescan, message_visits in *.
+  pose proof (len_nonneg _ v) as Hl. unfold COST_C, COST_K.
+  destruct (shorter v 20); [cbn [snd]; lia|].
+  destruct (negb (list_eqb (firstn 4 v) RTPS_MAGIC)); [cbn [snd]; lia|].
+  pose proof (sub_loop_cost MAX_SUBMESSAGES (skipn 20 v) _ ltac:(apply bytes_ok_skipn; exact Hb) eq_refl Ho Hr) as SC.
+  pose proof (len_skipn_le _ 20%nat v).
+  destruct (sub_loop MAX_SUBMESSAGES (skipn 20 v)) as [[l|e|x] c]; cbn [snd] in *; lia.
 Qed.
